@@ -429,7 +429,8 @@ func (s *Session) onRecord(resp *Response, req *Request) {
 
 func (s *Session) onPlay(resp *Response, req *Request) (err error) {
 	if s.status == statusPlaying {
-		return
+		// 已经在播放，仍然需要回复请求
+		return s.response(resp)
 	}
 
 	// 传输模式、会话模式判断
